@@ -211,7 +211,8 @@ def run(ctx):
     # ---------------------------------------------------------------- C13.3 (create_checkpoint)
     # "a refused request has no side effect anywhere (including inside the checkpoint store)": the only refusals of
     # create_checkpoint come from to_relative; none of them may be reachable from a store mutation of the same call.
-    ccf = P.fn('rip_workspace::Workspace::create_checkpoint')
+    from .common import workspace_body
+    ccf = workspace_body(P, 'rip_workspace::Workspace::create_checkpoint')
     ctx.touch(ccf)
     def here_or_in_closure(fn, pred):
         """sites of fn satisfying pred, plus — for a closure built in fn whose body (nested closures included) has such a
